@@ -160,6 +160,8 @@ fn h2_case(rng: &mut Rng, ctx: &mut Ctx) {
             }
         }
     }
+    let order: String = out.events.iter().filter(|e| e.kind != "handler_msg" && e.kind != "client_msg").map(|e| format!("{}:{};", e.kind, e.id)).collect();
+    ctx.distinct("h2_event_orders", &order);
     ctx.add("transport.h2_pipe_reads", out.pipe_stats.0);
     ctx.add("transport.h2_injected_pendings", out.pipe_stats.2);
     ctx.add("transport.h2_bytes", out.pipe_stats.3);
